@@ -48,6 +48,26 @@ Definition check_pub (t0 : N) (script : list (N * N)) (outs : list (hts * N * bo
   && eqb_listN (map (fun o => snd (fst o)) outs) (map snd script)
   && forallb (fun o => snd o) outs.
 
+(** [remix]: a really published message with one field changed ([field] 0 = none, 1 = version,
+    2 = author, 3 = time, 4 = logical, 5 = body) under the original signature: nothing may be
+    yielded unless nothing was changed, in which case the authentic content is expected back
+    (that second half is what makes the case meaningful). *)
+Definition remix_fields (field : N) (f : fields N) : fields N :=
+  match field with
+  | 1 => {| ver := ver f + 1; author := author f; time := time f; logical := logical f; body := body f |}
+  | 2 => {| ver := ver f; author := (author f + 1) mod 6; time := time f; logical := logical f; body := body f |}
+  | 3 => {| ver := ver f; author := author f; time := time f + 1; logical := logical f; body := body f |}
+  | 4 => {| ver := ver f; author := author f; time := time f; logical := logical f + 1; body := body f |}
+  | 5 => {| ver := ver f; author := author f; time := time f; logical := logical f; body := body f * 256 + 120 |}
+  | _ => f
+  end.
+
+Definition check_remix (field : N) (y : option obs) : bool :=
+  match y with
+  | None => true
+  | Some _ => field =? 0
+  end.
+
 (** Canonical lines *)
 Local Open Scope string_scope.
 
@@ -66,6 +86,14 @@ Definition model_line_forge (signer : N) (f1 f2 : fields N) (sigmut : bool) : st
     header), which decodes to the same tuple. *)
 Definition model_line_bytes (pk t l b : N) (tampered : bool) : string :=
   show_yield (Sym.accept (if tampered then Undecodable else Decoded (Sym.new_message pk (t, l) b))).
+
+(** The message the publisher (created at [t0]) sends at clock [now], remixed.  Time and
+    logical are u64 on the wire, so the harness' +1 wraps; the generator stays below that. *)
+Definition model_line_remix (pk t0 now b field : N) : string :=
+  match Sym.pub_run pk (hnow t0) [(now, b)] with
+  | ([w], _) => show_yield (Sym.accept (Decoded {| wf := remix_fields field (wf w); wsig := wsig w |}))
+  | _ => "PANIC"
+  end.
 
 Definition wrapped_eqb (a b : wrapped N Sym.sigT) : bool :=
   Sym.fields_eqb (wf a) (wf b) &&
